@@ -31,6 +31,8 @@ def spellings(q):
         (["import %s as zz_a" % m], "zz_a.%s" % f),
         (["from %s import %s" % (m, f)], f),
         (["from %s import %s as zz_g" % (m, f)], "zz_g"),
+        # the same bare name imported twice, the relevant import second (try/except fallback): the later binding is the one in force
+        (["try:", "    from zz_%s32 import %s" % (m.split(".")[0], f), "except ImportError:", "    from %s import %s" % (m, f)], f),
     ]
 
 
